@@ -299,7 +299,7 @@ def op_grpc_session(o):
                 if call.get("script"):
                     with srv.lock:
                         for p, q in call["script"].items():
-                            srv.script.setdefault(p, []).extend(q)
+                            srv.script[p] = list(q)      # a call's script replaces what earlier calls left over
                 try:
                     args, kw = build_args(call)
                     ret = getattr(client, call["method"])(*args, **kw)
@@ -322,7 +322,7 @@ def op_grpc_session(o):
                     if call.get("script"):
                         with srv.lock:
                             for p, q in call["script"].items():
-                                srv.script.setdefault(p, []).extend(q)
+                                srv.script[p] = list(q)      # a call's script replaces what earlier calls left over
                     try:
                         args, kw = build_args(call)
                         if "requests" in kw:
@@ -403,7 +403,7 @@ def op_rest_session(o):
         for call in o["calls"]:
             start, s0 = len(srv.log), len(trap.sleeps)
             if call.get("script"):
-                srv.script.extend(call["script"])
+                srv.script[:] = list(call["script"])
             try:
                 args, kw = build_args(call)
                 ret = getattr(client, call["method"])(*args, **kw)
